@@ -254,7 +254,9 @@ def parse_query(zc, uni, data, now, scope=None):
     from zeroconf._protocol.incoming import DNSIncoming
 
     m = DNSIncoming(data, ("0.0.0.0", 5353), scope, float(now))  # the listener passes the receiving interface's scope
-    qu_query = bool(m.is_query() and m.has_qu_question())  # what the duplicate guard's exemption looks at (D11c)
+    # what the duplicate guard's exemption looks at (D11c): "is a query" and "has a QU question".  The QU bits are taken
+    # question by question (not from the packet's own `_has_qu_question` flag): the model folds them itself (`hasQuFlag`)
+    qu_query = "%s %s" % (C.b01(m.is_query()), C.natlist([1 if q.unique else 0 for q in m._questions]) if any(q.unique for q in m._questions) else "-")
     if not m.valid:
         return False, False, qu_query, None
     if not m.is_query():
@@ -305,7 +307,7 @@ def block_line(tr, zc, b):
         b["parsed"] = pkt
         kind = "i" if not valid else ("r" if not isq else "q " + pkt_str(pkt))
         return "rx %d %d %d %d %d %s %s %s %s" % (b["t"], tr.addr_id(b["src"][0]), b["src"][1], tr.data_id(b["data"]), len(b["data"]),
-                                                C.b01(hasqu), kind, seen_str(seen), draws_str(b["draws"]))
+                                                hasqu, kind, seen_str(seen), draws_str(b["draws"]))
     if b["kind"] == "tc":
         return "tc %d %d %s %s" % (b["t"], tr.addr_id(b["addr"]), seen_str(seen), draws_str(b["draws"]))
     if b["kind"] == "qf":
@@ -395,7 +397,7 @@ def question_pool(infos):
     return pool
 
 
-def build_query(rng, infos, uni, qid, *, nq=None, qu_p=0.3, tc=False, probe=False, known_p=0.3, questions=None):
+def build_query(rng, infos, uni, qid, *, nq=None, qu_p=0.3, tc=False, probe=False, known_p=0.3, questions=None, qus=None):
     """bytes of one query datagram"""
     from zeroconf import DNSOutgoing, DNSQuestion, const as k
 
@@ -406,10 +408,10 @@ def build_query(rng, infos, uni, qid, *, nq=None, qu_p=0.3, tc=False, probe=Fals
         n = nq or rng.choice([1, 1, 1, 2, 2, 3])
         # bias to answerable questions
         questions = [rng.choice(pool[:len(pool) - 4]) if rng.random() < 0.85 else rng.choice(pool) for _ in range(n)]
-    qus = []
-    for name, typ in questions:
+    want_qus, qus = qus, []
+    for j, (name, typ) in enumerate(questions):
         q = DNSQuestion(name, typ, k._CLASS_IN)
-        q.unicast = rng.random() < qu_p
+        q.unicast = (rng.random() < qu_p) if want_qus is None else bool(want_qus[j])
         qus.append(q.unicast)
         out.add_question(q)
     if rng.random() < known_p:
